@@ -15,6 +15,8 @@ F_KEYS = "C13-dropseries-tagkeys"
 F_CROSS = "C13-stale-deleted-set"
 F_PURGE = "C13-purge-loses-live-items"
 F_CRASH = "C13-drop-lost-on-crash"
+F_NEWIDX = "C13-drop-ignored-by-new-index"
+F_WAL = "C13-dropped-rows-replayed-from-wal"
 LISTING = {"show-series", "show-series-where", "show-tag-values", "tv-where-eq", "tv-where-eq-y", "tv-where-neq", "tv-where-re",
            "tv-where-nre", "tv-where-host-neq", "tv-keyre-where", "tv-in-where", "tk-where-host", "tk-where-region",
            "ss-where-neq", "ss-where-re", "ss-where-nre", "ss-where-region"}
@@ -105,9 +107,25 @@ def pred_coq(p, it):
     raise ValueError(k)
 
 
+def labels_of(o):
+    """the late drops (d2, d3, d4) whose undoing explains a wrong answer exactly; empty when the answer is right or unexplained"""
+    x = o.get("extra") or ""
+    if o["ok"] or not x.startswith("dropped-only:"):
+        return set()
+    return set(x.split(":", 1)[1].split("+"))
+
+
+def phase_labels(h, phase):
+    out = set()
+    for st in h["steps"]:
+        if st["phase"] == phase:
+            for o in st["obs"]:
+                out |= labels_of(o)
+    return out
+
+
 def drop2_lost(h):
-    return any(st["phase"] == "after-crash" and any((not o["ok"]) and o.get("extra") == "dropped-only" for o in st["obs"])
-               for st in h["steps"])
+    return "d2" in phase_labels(h, "after-crash")
 
 
 def sorts_after(m, m2):
@@ -118,7 +136,7 @@ def sorts_after(m, m2):
 def case_coq(h, later):
     """later: the measurements of this history after whose items some other measurement's items follow in the index"""
     it = Intern()
-    ser = h["series"]
+    ser = h["series"] + (h.get("late_series") or [])
     by_host = {(k["mst"], k["tags"]["host"]): k for k in ser}
     ops = []
 
@@ -129,9 +147,11 @@ def case_coq(h, later):
                 seen.append(p["s"])
                 ops.append("KWrite %s" % series_coq(ser[p["s"]], it))
 
-    def reads(step):
+    def reads(step, skip_mst=None):
         primed_phase = step["phase"] in ("right-after-drop", "after-drop") and h["prime"] and h["drop"]["kind"] == "series"
         for o in step["obs"]:
+            if skip_mst is not None and o["mst"] == skip_mst:
+                continue
             lq = listing_query(o["shape"], it)
             if lq is not None:
                 kind, e = lq
@@ -178,16 +198,36 @@ def case_coq(h, later):
     if "after-drop" in steps:
         reads(steps["after-drop"])
     writes(h["w3"] or [])
-    for ph in ("after-writes", "after-flush", "after-restart"):
+    if "after-writes" in steps:
+        reads(steps["after-writes"])
+    writes(h.get("churn") or [])          # the compaction churn: a point on the first series of every measurement (fresh if dropped)
+    for ph in ("after-flush", "after-restart"):
         if ph in steps:
             reads(steps[ph])
-    if h.get("drop2") and "after-crash" in steps:
-        d2 = h["drop2"]
-        # if the answers after the crash are "expected + the series the second drop named", the model is run WITHOUT that drop:
+    late_mst = None
+    if h.get("drop3") and "after-late-drop" in steps:
+        d3, d4 = h["drop3"], h["drop4"]
+        late_mst = d3["mst"]
+        writes(h.get("w4") or [])
+        # a late drop whose series all reads still return right after it (the index of that series does not consult the
+        # deleted-series table until the next restart) takes effect in the model at the restart, i.e. after these reads
+        d3_now = "d3" not in phase_labels(h, "after-late-drop")
+        if d3_now:
+            ops.append("KDropSeries %d %s" % (it.str(d3["mst"]), pred_coq(d3["pred"], it)))
+        ops.append("KDropSeries %d %s" % (it.str(d4["mst"]), pred_coq(d4["pred"], it)))
+        reads(steps["after-late-drop"])
+        if not d3_now:
+            ops.append("KDropSeries %d %s" % (it.str(d3["mst"]), pred_coq(d3["pred"], it)))
+    if "after-crash" in steps:
+        d2 = h.get("drop2")
+        # if the answers after the crash are "expected + the series the last drop named", the model is run WITHOUT that drop:
         # it then has to reproduce every series set, i.e. the drop must be lost entirely and consistently
-        if not drop2_lost(h):
+        if d2 and not drop2_lost(h):
             ops.append("KDropSeries %d %s" % (it.str(d2["mst"]), pred_coq(d2["pred"], it)))
-        reads(steps["after-crash"])
+        # series that the WAL replay brought back become searchable at an unknown moment during these reads: their
+        # measurement is left to the direct oracle alone in this phase
+        replayed = bool(phase_labels(h, "after-crash") & {"d3", "d4"})
+        reads(steps["after-crash"], skip_mst=late_mst if replayed else None)
     host = it.str("host")
     am = ["(%d, %d)" % (P_OR, it.str("a")), "(%d, %d)" % (P_OR, it.str("b")), "(%d, %d)" % (P_LIT, it.str("a")),
           "(%d, %d)" % (P_RXY, it.str("x")), "(%d, %d)" % (P_RXY, it.str("y")), "(%d, %d)" % (P_RX, it.str("x"))]
@@ -283,6 +323,10 @@ def main(ck):
     conf = os.path.join(ck.repo, "config", "openGemini.singlenode.conf")
     rc, out = ck.run([binp, srv, conf, str(PORT), str(n)] + files, timeout=1500)
     hs = [json.loads(l) for l in out.splitlines() if l.startswith('{"i"')]
+    comp = None
+    for l in out.splitlines():
+        if l.startswith('{"compaction"'):
+            comp = json.loads(l)["compaction"]
     if rc != 0 or len(hs) < n:
         ck.broken.append("harness c13 failed rc=%d histories=%d: %s" % (rc, len(hs), out[-800:]))
         return
@@ -346,13 +390,17 @@ def main(ck):
         open(os.path.join(ck.verif, "work", "c13dev", "rendered.txt"), "w").write("\n".join(rendered))
         open(os.path.join(ck.verif, "work", "c13dev", "hs.json"), "w").write(json.dumps(hs))
     # ---- verdicts
-    stale = {F_PATHS, F_ALT, F_CACHE, F_KEYS, F_CROSS, F_CRASH}
+    stale = {F_PATHS, F_ALT, F_CACHE, F_KEYS, F_CROSS, F_CRASH, F_NEWIDX, F_WAL}
     what = {F_PATHS: "after DROP SERIES, reads that start from all series of the measurement (plain select, field filter, group by, "
                      "aggregates, != / ='' / !~ filters) still return the dropped series when another measurement sorts after it in the index",
             F_ALT: "after DROP SERIES, a regex tag filter translated into alternatives (host =~ /a|b/) still returns the dropped series",
             F_CACHE: "after DROP SERIES, a tag filter evaluated before the drop is answered from the tag-filter cache for some seconds",
             F_KEYS: "after DROP SERIES, SHOW TAG KEYS still lists tag keys that only dropped series carried (schema-based listing)",
             F_CRASH: "a DROP SERIES that was acknowledged right before a kill -9 is undone by the crash (the dropped series is back after the restart)",
+            F_NEWIDX: "a DROP SERIES has no effect (until the next restart) on a series whose index was created after the policy's "
+                      "deleted-series table existed: every read shape still returns it",
+            F_WAL: "rows written before an acknowledged, durable DROP SERIES and still in the WAL at a kill -9 come back after the restart "
+                   "(the WAL replay gives the dropped series a fresh id)",
             F_CROSS: "a listing in a database without any DROP SERIES misses series after DROP SERIES in ANOTHER database (stale deleted set "
                      "in the pooled index search; series ids of databases created close in time collide)"}
     nontriv = set()
@@ -380,11 +428,25 @@ def main(ck):
                 if o["ok"]:
                     continue
                 failed = True
+                if any("harness-timeout" in m for m in (h.get("step_errors") or [])) or "harness-timeout" in (o.get("err") or ""):
+                    continue          # reported once below as an unanswered request
                 fid = None
+                fids = None
                 after = st["phase"] not in ("before", "right-before-drop")
-                if st["phase"] == "after-crash":
-                    if h.get("drop2") and o["mst"] == h["drop2"]["mst"] and o.get("extra") == "dropped-only" and corr_ok:
-                        fid = F_CRASH
+                lab = labels_of(o)
+                if st["phase"] == "after-late-drop":
+                    # the series named by drop3 lives only in the index created after the restart; no restart since
+                    if lab == {"d3"} and h.get("drop3") and o["mst"] == h["drop3"]["mst"] and corr_ok:
+                        fid = F_NEWIDX
+                elif st["phase"] == "after-crash":
+                    need = set()
+                    if "d2" in lab and h.get("drop2") and o["mst"] == h["drop2"]["mst"]:
+                        need.add(F_CRASH)
+                    if lab & {"d3", "d4"} and h.get("drop3") and o["mst"] == h["drop3"]["mst"]:
+                        need.add(F_WAL)           # W4 rows (series e, f) were still in the WAL at the kill: the writer kept the shards warm
+                    covered = ("d2" not in lab or F_CRASH in need) and (not lab & {"d3", "d4"} or F_WAL in need)
+                    if lab and corr_ok and covered:
+                        fids = sorted(need)
                 elif after and d["kind"] == "series" and d["n"] > 0 and o["mst"] == d["mst"] and o.get("extra") == "dropped-only" and corr_ok:
                     if o["shape"] in ALL_BASED and later:
                         fid = F_PATHS
@@ -401,18 +463,28 @@ def main(ck):
                 if fid is None and o["shape"] in LISTING and d["kind"] != "series" and others_dropped and not o.get("err") \
                         and set(o["rows"]) < set(o["want"]):
                     fid = F_CROSS
-                if fid and fragment_finding(ck, fid):
-                    stale.discard(fid)
-                    ck.known_finding(fid, what[fid])
+                if fids is None and fid:
+                    fids = [fid]
+                if fids and all(fragment_finding(ck, f) for f in fids):
+                    for f in fids:
+                        stale.discard(f)
+                        ck.known_finding(f, what[f])
                 else:
                     nviol += 1
                     if nviol <= 4:
                         ck.violation({"kind": "direct-oracle", "phase": st["phase"], "shape": o["shape"], "measurement": o["mst"],
                                       "got": o["rows"], "want": o["want"], "err": o.get("err"), "extra": o.get("extra"),
-                                      "model_reproduces": corr_ok, "signature_candidate": fid,
+                                      "model_reproduces": corr_ok, "signature_candidate": fids or fid,
                                       "history": {k: h[k] for k in ("db", "rp", "msts", "series", "w1", "w2", "prime", "drop", "w3")}})
+        if any("harness-timeout" in (o.get("err") or "") for st in h["steps"] for o in st["obs"]) and not any("unanswered" in b for b in ck.broken):
+            ck.broken.append("C13 black box: a request was left unanswered by the server for minutes (history %d, a read)" % hi)
         for msg in h.get("step_errors") or []:
             failed = True
+            if "harness-timeout" in msg:
+                # a statement or write of unknown fate makes the rest of the history undecidable: not an oracle verdict
+                if not any("unanswered" in b for b in ck.broken):
+                    ck.broken.append("C13 black box: a request was left unanswered by the server for minutes (history %d: %s)" % (hi, msg[:200]))
+                continue
             nviol += 1
             if nviol <= 4:
                 ck.violation({"kind": "direct-oracle", "what": "a step of the history failed: " + msg,
@@ -426,6 +498,10 @@ def main(ck):
                                     "history": {k: h[k] for k in ("db", "rp", "msts", "series", "w1", "w2", "prime", "drop", "w3")},
                                     "explanation": "no variant of the model reproduces the series sets the server returned, and every answer "
                                                    "matched the reference map"}
+    ck.cov["compaction"] = comp
+    if not getattr(ck, "replay", None) and n > 0 and (not comp or comp.get("dirs_with_compacted_file", 0) == 0):
+        ck.broken.append("C13 black box: no level compaction was observed on disk within the bounded wait after %d write+flush rounds "
+                         "(the 'never reappears after compaction' reads were not exercised): %s" % (8, comp))
     ck.cov["evaluations"] = nreads
     ck.cov["histories"] = len(hs)
     ck.cov["distinct_nontrivial"] = len(nontriv)
